@@ -1,5 +1,6 @@
 import GormModel.Drv.Util
 import GormModel.Model.Identity
+import GormModel.Model.JoinScan
 import GormModel.Gen.PreloadFacts
 open Lean
 namespace Gorm.Drv
@@ -119,6 +120,20 @@ def optTable (j : Json) : Option (List Char) :=
 def joinRefJ (r : JoinRef) : Json :=
   Json.arr #[Json.bool r.ownPK, Json.str (String.ofList r.pkCol), Json.str (String.ofList r.fkCol), Json.str (String.ofList r.primaryValue)]
 
+/-- [[[name, ptr]…], col, isNull] -/
+def parseJCell (j : Json) : Option JCell := do
+  let a ← jArr? j
+  let chain ← (← jArr? (arg a 0)).toList.mapM (fun l => do
+    let la ← jArr? l
+    let n ← jStr? (arg la 0)
+    let p ← jBool? (arg la 1)
+    some (⟨n.toList, p⟩ : JLevel))
+  let col ← jStr? (arg a 1)
+  let nl ← jBool? (arg a 2)
+  some ⟨chain, col.toList, nl⟩
+
+def relPathStr (p : RelPath) : String := "__".intercalate (p.map String.ofList)
+
 end HC11
 open HC11
 
@@ -177,6 +192,13 @@ def handleC11 (op : String) (args : Array Json) : Option Json := do
     some (Json.mkObj [("direct", pairsJ (preloadDirectPairs refs)), ("join", pairsJ (preloadJoinPairs refs)),
       ("hop", pairsJ (preloadHopPairs refs)),
       ("consts", strListJ ((refs.filterMap (qcAtom [] none)).map qAtomStr))])
+  | "scan.row" =>
+    -- ["scan.row", [cells]] -> {alloc: [relation paths allocated for the row], sets: ["path.col" written with a non-NULL value]}
+    let cells ← (← jArr? (arg args 1)).toList.mapM parseJCell
+    let st := scanRow cells
+    some (Json.mkObj [
+      ("alloc", strListJ (st.alloc.map relPathStr)),
+      ("sets", strListJ ((st.sets.filter (fun x => !x.2.2)).map (fun x => relPathStr x.1 ++ "." ++ String.ofList x.2.1)))])
   | "join.on" =>
     let refs ← (← jArr? (arg args 1)).toList.mapM parseJoinRef
     let qc ← jNat? (arg args 2)
